@@ -255,3 +255,14 @@ _extend("C19", "exception-escape rule with the number-theory helpers' own errors
 _extend("C20", "who-may-write rule for the multiplication table", "Additionally: only the constructors and the one publisher (and helpers reached only from them) assign the table.")
 _extend("C16", "data-independence of control flow in the mode and feeder scenarios", "Additionally: no branch of a mode of operation or feeder depends on the value of a byte produced by the block function.")
 _extend("C09", "the multiplication-table rules of C17 and the publication rules of C20 are evaluated for C09 as well", "Additionally: the table through which the ephemeral point k*G is computed holds affine doublings and is never visible half built.")
+
+# ---- round 10 of breaking changes (boundaries and combinations of options) and the eighth refactoring round (data representation)
+for _pid in ("C01", "C03", "C04", "C05"):
+    _extend(_pid, "context rule over the read events of the BF3 reader: no read under a test of the MAC switch",
+            "Additionally: MAC checking on and off consume the same fields (the switch selects comparisons only), a necessary condition of reading back with the check off what the writer emits.")
+_extend("C17", "structural rule on the NAF walk: every digit of _naf(k) is walked and the accumulator starts at infinity",
+        "Additionally: an empty digit string (a multiple of twice the order) yields infinity, not the point.")
+_extend("C19", "registry rule for explicit curve parameters: the decoded curve is compared with every registered curve, or looked up in an index whose key is evaluated to be injective on the registered curve literals",
+        "Additionally: explicit parameters of a registered curve decode to that curve object (name and OID attached), so the key re-encodes to the bytes it came from.")
+_extend("C13", "the tag-type predicate is interpreted on its complete domain against the pinned range table, however its table is written",
+        "")
